@@ -310,6 +310,26 @@ pub fn lsp_pos(text: &str, off: usize) -> (u32, u32) {
 pub fn gen_positions(rng: &mut Rng, text: &str, prog: &gen_prog::Prog, offs: &[usize], max: usize) -> Vec<(u32, u32)> {
     let mut v = vec![];
     let idents: Vec<usize> = (0..prog.toks.len()).filter(|&i| prog.toks[i].binding != gen_prog::Binding::None).collect();
+    // always probe variables whose declared type name is also the name of a parameter/variable of the same
+    // procedure (the type position must still resolve globally), and the type names in such positions
+    let mut special: Vec<usize> = vec![];
+    for &i in &idents {
+        if let gen_prog::Binding::Var(pi, vi) = prog.toks[i].binding {
+            if let Some(var) = prog.procs.get(pi).and_then(|p| p.vars.get(vi)) {
+                if let gen_prog::Ty::Named(t) = var.ty {
+                    let tn = &prog.types[t].name;
+                    if prog.procs[pi].vars.iter().any(|w| &w.name == tn) {
+                        special.push(i);
+                    }
+                }
+            }
+        }
+    }
+    for k in 0..special.len().min(4) {
+        let i = special[(k * 7 + rng.below(special.len())) % special.len()];
+        let w = prog.toks[i].text.len();
+        v.push(lsp_pos(text, offs[i] + rng.below(w)));
+    }
     for _ in 0..max {
         if !idents.is_empty() && rng.chance(3, 4) {
             let i = *rng.pick(&idents);
